@@ -11,3 +11,10 @@ class Square:
 
 def area(s):
     return 3
+
+
+class Canvas:
+    """A class with a class inside it (C15/C16: a traced value whose class is nested in a class of ANOTHER module)."""
+
+    class Layer:
+        z = 0
